@@ -133,7 +133,7 @@ def materialise(case):
 # DAG catalogue and helpers
 # --------------------------------------------------------------------------
 
-def dag(shape, comps=None, vols=None, data=None):
+def dag(shape, comps=None, vols=None, data=None, ids=None):
     """Catalogue DAG ``shape`` with per-node compute ``comps`` (list or int),
     per-edge volume ``vols`` (list or int) and optional per-node task_data."""
     shapes = {
@@ -164,8 +164,13 @@ def dag(shape, comps=None, vols=None, data=None):
         d = None if data is None else (
             data if isinstance(data, (int, float)) else data[i])
         nodes.append([i, comps[i], d])
-    return {"nodes": nodes,
-            "edges": [[u, v, vols[k]] for k, (u, v) in enumerate(edges)]}
+    wf = {"nodes": nodes,
+          "edges": [[u, v, vols[k]] for k, (u, v) in enumerate(edges)]}
+    if ids is not None:
+        # node ids that are neither contiguous nor in topological order
+        wf = {"nodes": [[ids[x[0]]] + x[1:] for x in nodes],
+              "edges": [[ids[u], ids[v], vol] for u, v, vol in wf["edges"]]}
+    return wf
 
 
 def wf_preds(wf):
